@@ -1,11 +1,15 @@
-# dev helper: run one harness case and print a summary
+# dev helper: run one harness case and print a summary:  runcase.py <pkg> <fn> [setup=mod:fn] args...
 import sys, time
 sys.path.insert(0,'/verif')
 from symex import driver, core, checklib
 from symex.checklib import Case
 ssa = driver.dump_ssa()
-pkg=sys.argv[1]; name=sys.argv[2]; args=[int(x) if x.lstrip('-').isdigit() else (x=='True') for x in sys.argv[3:]]
+pkg=sys.argv[1]; name=sys.argv[2]; rest=sys.argv[3:]
+setup=None
+if rest and rest[0].startswith('setup='):
+    setup=rest[0][6:]; rest=rest[1:]
+args=[int(x) if x.lstrip('-').isdigit() else (x=='True') for x in rest]
 c = Case('t',pkg,name,args)
 t=time.time()
-r = checklib._run_case((ssa,c,60000,0,None))
-print(round(time.time()-t,2), 'paths',r['paths'], r['status'], r['violations'][:3], r['unsupported'][:3], r['stats'])
+r = checklib._run_case((ssa,c,60000,0,setup))
+print(round(time.time()-t,2), 'paths',r['paths'], r['status'], r['violations'][:3], r['unsupported'][:3], r['stats'], r['labels'])
